@@ -117,7 +117,9 @@ def generate(ctx):
                 continue
             yield {"part": "longrun", "bound": kind, "half": half, "power": rng.choice([1.0, 2.0, 3.0]),
                    "steps": 5000 if th else 1500, "seed": rng.randrange(1 << 30),
-                   "dtype": ["float32", "float64"][(i + rep) % 2], "start": start, "shape": [2, 3]}
+                   "dtype": ["float32", "float64"][(i + rep) % 2], "start": start, "shape": [2, 3],
+                   # limits that single precision does not represent, and single-precision parts for a double-precision parameter
+                   "limits": rng.choice([[1.5, -0.5], [0.1, -0.1], [0.7, -0.3]]), "parts32": rng.random() < 0.6}
 
 
 def _np(t):
@@ -432,6 +434,10 @@ def _longrun(ctx, desc):
         cap = 0.3
     slack = 0.0 if tdt == torch.float64 else 4e-7 * max(abs(mx), abs(mn))
     slack = max(slack, 1e-15)
+    pdt = torch.float32 if desc.get("parts32") else tdt
+    if pdt != tdt:
+        ctx.count("longruns_with_single_precision_parts_on_a_double_precision_parameter")
+        cap = cap * (1 - 3e-7)      # the stated magnitude limit holds for the parts as handed over (after their rounding to float32)
     for t in range(desc["steps"]):
         if sharp and desc["start"] == "at_limits" and t % 25 == 0:
             # put two elements exactly on the limits again (a parameter that has just reached its limit)
@@ -448,7 +454,7 @@ def _longrun(ctx, desc):
                 p = torch.full(shape, cap / nparts, dtype=torch.float64)   # the extreme allowed magnitude
             if t % 11 == 0:
                 n = torch.full(shape, cap / nparts, dtype=torch.float64)
-            upd.weight = (p.to(tdt), n.to(tdt))
+            upd.weight = (p.to(pdt), n.to(pdt))
         try:
             conn.update()
         except Exception as e:  # noqa: BLE001
